@@ -163,6 +163,37 @@ def _size_class(atom: str, new_names: set[str], old_names: set[str]) -> str:
     return "other"
 
 
+_VALUE_WRAPPERS = {"astype", "asarray", "ascontiguousarray", "copy", "asanyarray"}
+
+
+def _peel_cast(e: ast.AST):
+    """name of the array a return expression hands back, through dtype casts / copies of it (their dtype is decided by
+    R-RESULTDTYPE); None if it is something else"""
+    for _ in range(6):
+        if isinstance(e, ast.Name):
+            return e.id
+        if isinstance(e, ast.Call) and last_attr(e) in _VALUE_WRAPPERS and isinstance(e.func, ast.Attribute):
+            recv = e.func.value
+            if isinstance(recv, ast.Name) and recv.id in ("np", "xp", "cp", "numpy", "cupy") and e.args:
+                e = e.args[0]
+            else:
+                e = recv
+            continue
+        return None
+    return None
+
+
+def _follow_alias(df: DataFlow, ret: ast.Return, name: str) -> str:
+    """`result = array; return result` hands back `array`"""
+    at = df.cfg.node_of(ret).idx
+    for _ in range(6):
+        d = df.single_def(at, name)
+        if d is None or d.kind != "assign" or not isinstance(d.value, ast.Name):
+            break
+        name, at = d.value.id, d.node
+    return name
+
+
 def _ratio_check(ctx, f: FuncInfo, construct: str, where: str, M: Poly, new_names: set[str], old_names: set[str],
                  key: str) -> None:
     if len(M.terms) != 1:
@@ -186,8 +217,8 @@ def _normalisation(ctx, repo) -> None:
     arr = f.positional_params[0]
     df = DataFlow(f.node)
     rets = [n for n in walk_no_nested(f.node) if isinstance(n, ast.Return) and n.value is not None]
-    ctx.require(len(rets) == 1 and isinstance(rets[0].value, ast.Name), f"{f.qualname}: expected `return <array>`")
-    res = rets[0].value.id
+    ctx.require(len(rets) == 1 and _peel_cast(rets[0].value) is not None, f"{f.qualname}: expected `return <array>`")
+    res = _follow_alias(df, rets[0], _peel_cast(rets[0].value))
 
     def updates(body):
         out = []
@@ -531,8 +562,8 @@ def _sizes(ctx, repo) -> None:
     body = _select(f.body, "normalization", "values")
     ctx.require(body is not None, f"{f.qualname}: no dispatch on `normalization` found")
     rets = [n for n in walk_no_nested(f.node) if isinstance(n, ast.Return) and n.value is not None]
-    ctx.require(len(rets) == 1 and isinstance(rets[0].value, ast.Name), f"{f.qualname}: expected `return <array>`")
-    res = rets[0].value.id
+    ctx.require(len(rets) == 1 and _peel_cast(rets[0].value) is not None, f"{f.qualname}: expected `return <array>`")
+    res = _follow_alias(df, rets[0], _peel_cast(rets[0].value))
     ups = [n for st in body for n in ast.walk(st) if isinstance(n, (ast.Assign, ast.AugAssign))
            and dotted(n.targets[0] if isinstance(n, ast.Assign) else n.target) == res]
     if len(ups) != 1:
@@ -662,6 +693,7 @@ def _complex_cast(ctx, repo) -> None:
     arr = f.positional_params[0]
     casts = [c for c in walk_no_nested(f.node) if isinstance(c, ast.Call) and last_attr(c) == "astype"
              and isinstance(c.func, ast.Attribute) and dotted(c.func.value) == arr]
+    casts = [c for c in casts if not _after_inverse(f, c)]  # casts of the result: R-RESULTDTYPE
     if not casts:
         ctx.info("R-COMPLEXCAST", f"{f.qualname}:cast", f.where, "the array is not cast before the transform")
         return
@@ -681,6 +713,117 @@ def _complex_cast(ctx, repo) -> None:
                   f"`{norm_text(c)[:70]}` casts the array to a real dtype before the transform: the imaginary part of a "
                   "complex array (a wave function) is discarded, so up- then down-sampling does not return it",
                   key_detail="cast")
+
+
+_INVERSE = {"ifft2", "ifftn", "ifft"}
+_INT_DTYPES = {"int", "int8", "int16", "int32", "int64", "uint8", "uint16", "uint32", "uint64", "bool", "bool_", "intp"}
+
+
+def _after_inverse(f: FuncInfo, call: ast.Call) -> bool:
+    """can the inverse transform have run when `call` is evaluated?"""
+    from ..cfg import CFG
+
+    cfg = CFG(f.node)
+    st = _stmt_of(f.node, call)
+    tgt = cfg.node_of(st).idx
+    starts = [n.idx for n in cfg.nodes if n.ast is not None and n.kind == "stmt" and any(
+        isinstance(c, ast.Call) and (last_attr(c) or call_name(c) or "").split(".")[-1] in _INVERSE
+        for c in walk_no_nested(n.ast))]
+    seen, work = set(), [s_ for i in starts for s_ in cfg.nodes[i].succ]
+    while work:
+        i = work.pop()
+        if i in seen:
+            continue
+        seen.add(i)
+        work.extend(cfg.nodes[i].succ)
+    return tgt in seen
+
+
+def _dtype_sources(f: FuncInfo, df: DataFlow, e: ast.AST, at: int, depth: int = 0) -> set:
+    if depth > 12:
+        return {"unknown"}
+    if isinstance(e, ast.Call) and call_name(e) == "get_dtype":
+        return {"configured"}
+    if isinstance(e, ast.Constant) and isinstance(e.value, str):
+        nm = e.value
+        return {"floating"} if nm in _COMPLEX_DTYPES | _REAL_DTYPES - _INT_DTYPES else {"integer"} if nm in _INT_DTYPES else {"unknown"}
+    if isinstance(e, ast.Attribute) and e.attr == "dtype":
+        root = e.value
+        while isinstance(root, (ast.Attribute, ast.Call, ast.Subscript)):
+            root = root.func if isinstance(root, ast.Call) else root.value
+        if isinstance(root, ast.Name):
+            out = set()
+            work, seen = [(root.id, at)], set()
+            while work:
+                nm, where = work.pop()
+                if (nm, where) in seen:
+                    continue
+                seen.add((nm, where))
+                for d in df.reaching(where, nm):
+                    if d.kind == "param":
+                        out.add("input")
+                    elif d.kind == "assign" and isinstance(d.value, ast.Name):
+                        work.append((d.value.id, d.node))  # an alias of another array
+                    else:
+                        out.add("current")
+            return out or {"unknown"}
+        return {"unknown"}
+    if isinstance(e, (ast.Attribute, ast.Name)) and dotted(e) and (isinstance(e, ast.Attribute) or not df.reaching(at, e.id)):
+        nm = dotted(e).split(".")[-1]
+        if nm in _INT_DTYPES:
+            return {"integer"}
+        if nm in _COMPLEX_DTYPES | _REAL_DTYPES:
+            return {"floating"}
+        return {"unknown"}
+    if isinstance(e, ast.Name):
+        out = set()
+        for d in df.reaching(at, e.id):
+            if d.kind == "assign" and d.value is not None:
+                out |= _dtype_sources(f, df, d.value, d.node, depth + 1)
+            else:
+                out.add("unknown")
+        return out or {"unknown"}
+    if isinstance(e, ast.IfExp):
+        return _dtype_sources(f, df, e.body, at, depth + 1) | _dtype_sources(f, df, e.orelse, at, depth + 1)
+    return {"unknown"}
+
+
+def _result_dtype(ctx, repo) -> None:
+    """R-RESULTDTYPE"""
+    f = repo.function(FFT, "fft_interpolate")
+    df = DataFlow(f.node)
+    n = 0
+    for c in walk_no_nested(f.node):
+        if not (isinstance(c, ast.Call) and isinstance(c.func, ast.Attribute)):
+            continue
+        dt = None
+        if c.func.attr in ("astype", "view") and (c.args or any(k.arg == "dtype" for k in c.keywords)):
+            dt = c.args[0] if c.args else next(k.value for k in c.keywords if k.arg == "dtype")
+        elif c.func.attr in ("asarray", "array", "ascontiguousarray", "asanyarray"):
+            dt = next((k.value for k in c.keywords if k.arg == "dtype"), c.args[1] if len(c.args) > 1 else None)
+        if dt is None or not _after_inverse(f, c):
+            continue
+        at = df.cfg.node_of(_stmt_of(f.node, c)).idx
+        src = _dtype_sources(f, df, dt, at)
+        if "unknown" in src:
+            raise AnalysisError(f"{f.qualname}: cannot tell where the dtype of `{norm_text(c)[:60]}` comes from")
+        guarded = [t for t, _ in _guards_of(f.node, c) if "dtype" in norm_text(t.test) or "issubdtype" in norm_text(t.test)
+                   or "iscomplex" in norm_text(t.test) or "isreal" in norm_text(t.test)]
+        bad = sorted(src & {"input", "integer"})
+        if bad and guarded:
+            raise AnalysisError(f"{f.qualname}: `{norm_text(c)[:60]}` casts the result to an input-dependent dtype under "
+                                "a test on the dtype; such guards are not modelled")
+        n += 1
+        ctx.check(not bad, "R-RESULTDTYPE", f"{f.qualname}:result cast", f.loc(c),
+                  f"the interpolated result is cast to a {'/'.join(sorted(src))} floating dtype",
+                  f"`{norm_text(c)[:70]}` casts the interpolated result to " + " / ".join(
+                      {"input": "the dtype the input array came in", "integer": "an integer dtype"}[b] for b in bad) +
+                  ": for integer (count, label, uint8) input the interpolated values are truncated (and wrap for "
+                  "unsigned types), so the 'values' normalisation no longer preserves the mean and up- then "
+                  "down-sampling does not return the array", key_detail="cast")
+    if n == 0:
+        ctx.ok("R-RESULTDTYPE", f"{f.qualname}:result cast", f.where,
+               "the result keeps the floating dtype of the transform (no cast after the inverse transform)")
 
 
 def _kernel_axes(ctx, repo) -> None:
@@ -948,3 +1091,17 @@ def run(ctx) -> None:  # noqa: F811
     _kernel_axes(ctx, ctx.repo)
     _extent(ctx, ctx.repo)
     _inner_run_c15_sweep(ctx)
+
+
+# ---- added after the seeded change C15-r4seed0: the interpolated result stays floating
+_inner_run_c15_r4 = run
+
+
+def run(ctx) -> None:  # noqa: F811
+    ctx.rule("R-RESULTDTYPE", "fft_interpolate: no cast applied after the inverse transform takes its dtype from the "
+             "input array (`<input>.dtype` read while the name is still bound to the parameter, followed through "
+             "reaching definitions) or from an integer type: the function accepts integer-valued arrays and the "
+             "interpolant is not integer, so such a cast truncates; casts to get_dtype(...) / floating literals / the "
+             "dtype of the transformed array are fine")
+    _result_dtype(ctx, ctx.repo)
+    _inner_run_c15_r4(ctx)
